@@ -159,6 +159,11 @@ SCOPES = {
                                     'yaql.legacy'),
     'C05': lambda fi: fi.module in (L + 'runner', L + 'specs',
                                     L + 'yaqltypes', L + 'contexts'),
+    # choose_overload hands the SAME args / kwargs / mappings to every
+    # candidate: its order-free postcondition relies on map_args,
+    # get_delegate and the smart types' check/convert writing none of them
+    'C06': lambda fi: fi.module in (L + 'runner', L + 'specs',
+                                    L + 'yaqltypes'),
     'C07': lambda fi: fi.module in (SL + 'yaqlized', 'yaql.yaqlization'),
     'C13': lambda fi: fi.module in (SL + 'collections', SL + 'queries'),
     'C19': lambda fi: fi.module in (SL + 'strings', SL + 'regex'),
